@@ -14,7 +14,8 @@ from gen import A, C, N, call, fcall, lam, mcall
 
 ID = "C14"
 TAG, EXTRACT, DRIVER = sc.TAG, sc.EXTRACT, sc.DRIVER
-COQ_FILES = ["FA/Proofs/SimplifyFacts.v", "FA/Proofs/SimplifyPkg.v", "FA/Properties/C14.v"]
+COQ_FILES = ["FA/Proofs/SimplifyFacts.v", "FA/Proofs/SimplifyPkg.v", "FA/Proofs/SimplifyTotal.v", "FA/Proofs/SimplifyInv.v", "FA/Proofs/SimplifySound.v",
+             "FA/Proofs/SimplifyShape.v", "FA/Properties/C14.v"]
 
 LEVEL = ("Coq lemmas over the executable model of simplify_chained_calls: a constant projection of a visited tuple/list/dict literal is "
          "replaced by the selected component (never left in place, never a different component), the substitution stack hands a packaged "
